@@ -81,6 +81,14 @@ def gen_tu(c, t):
     # equality family
     tu.add('w_eq', 'bool& o, const %s& a, const %s& b' % (A, A), 'o = (a == b);', kind='eq', op='eq')
     tu.add('w_ne', 'bool& o, const %s& a, const %s& b' % (A, A), 'o = (a != b);', kind='eq', op='ne')
+    if c in ('V2', 'V3', 'V4', 'C4', 'S6') and t in 'fdi':
+        # the comparison operators are templates over the other operand's element type: the components are compared as the
+        # language compares a T with an S (in their common type), not after a conversion to T
+        t2 = {'f': 'd', 'd': 'f', 'i': 'f'}[t]; E2 = ELEM[t2][0]; A2 = cpp(c, t2)
+        tu.add('ref_eqmix', 'bool& o, const %s& a, const %s& b' % (E, E2), 'o = (a == b);', kind='ref')
+        tu.add('ref_nemix', 'bool& o, const %s& a, const %s& b' % (E, E2), 'o = (a != b);', kind='ref')
+        tu.add('w_eqmix', 'bool& o, const %s& a, const %s& b' % (A, A2), 'o = (a == b);', kind='eq', op='eqmix', t2=t2)
+        tu.add('w_nemix', 'bool& o, const %s& a, const %s& b' % (A, A2), 'o = (a != b);', kind='eq', op='nemix', t2=t2)
     if c not in ('Q', 'C4') and t in 'fd' or (c in ('V2', 'V3', 'V4', 'C3') and t not in 'h'):
         tu.add('w_eqabs', 'bool& o, const %s& a, const %s& b, const %s& e' % (A, A, E), 'o = a.equalWithAbsError(b, e);', kind='eq', op='eqabs')
         tu.add('w_eqrel', 'bool& o, const %s& a, const %s& b, const %s& e' % (A, A, E), 'o = a.equalWithRelError(b, e);', kind='eq', op='eqrel')
@@ -249,9 +257,12 @@ def check_tu(rep, an, tu, c, t):
                 rb = as_bool(r); gb = as_bool(g)
             except vg.Unsupported as e:
                 rep.ob(oid, 'R04.eq', UNDECIDED, str(e), where); continue
+            t2 = m.get('t2')
+            if t2: op = op[:2]
             exp = T.FALSE if op == 'ne' else T.TRUE
             for i in range(n):
                 mp = {s_in('a1'): a_in('a1', i), s_in('a2'): a_in('a2', i)}
+                if t2: mp = {s_in('a1'): a_in('a1', i), agg.scalar_in('a2', t2): agg.slot_in('a2', i, t2)}
                 if op in ('eqabs', 'eqrel'): mp[s_in('a3')] = s_in('a3')
                 term = inst(rb, mp)
                 exp = T.bool_or(exp, term) if op == 'ne' else T.bool_and(exp, term)
